@@ -407,7 +407,7 @@ func H_C01_in_subquery() {
 	n := verif.Choose("rows", maxRows(2, 3)+1)
 	m := verif.Choose("list", 3)
 	neg := verif.Choose("not", 2)
-	computed := verif.Choose("computed", 2) // the subquery column is c, or the expression c + 1
+	computed := verif.Choose("computed", 3) // the subquery column is c, the expression c + 1, or c filtered by the outer row
 	doc, rows := numTable(n, "a")
 	u := make([]any, m)
 	cs := make([]float64, m)
@@ -428,7 +428,11 @@ func H_C01_in_subquery() {
 			cs[i] = cs[i] + 1
 		}
 	}
-	got, ok := runQuery(doc, "SELECT * FROM t WHERE a"+kw+"(SELECT "+col+" FROM `<-u`)")
+	corr := ""
+	if computed == 2 {
+		corr = " WHERE c >= `<-a`" // correlated: the list differs from row to row
+	}
+	got, ok := runQuery(doc, "SELECT * FROM t WHERE a"+kw+"(SELECT "+col+" FROM `<-u`"+corr+")")
 	if !ok {
 		return
 	}
@@ -436,7 +440,7 @@ func H_C01_in_subquery() {
 	for _, r := range rows {
 		in := false
 		for _, c := range cs {
-			if f64of(r["a"]) == c {
+			if f64of(r["a"]) == c && (computed != 2 || c >= f64of(r["a"])) {
 				in = true
 			}
 		}
